@@ -371,7 +371,12 @@ fn gen_sched(rng: &mut Rng) -> Vec<usize> {
         2 => vec![3],
         3 => vec![*rng.pick(&[5usize, 7, 13, 31, 97])],
         4 => vec![100_000],
-        _ => (0..rng.range(2, 12)).map(|_| rng.range(1, 40) as usize).collect(),
+        _ => {
+            // short schedules end in a constant quota (the last entry repeats); long ones keep varying
+            // for the whole run
+            let n = if rng.below(2) == 0 { rng.range(2, 12) } else { 600 };
+            (0..n).map(|_| rng.range(1, 40) as usize).collect()
+        }
     }
 }
 
